@@ -2,6 +2,13 @@
 #include "Cello.h"
 #include "inputs.h"
 #include <stdio.h>
+/* recursive use of one try block: the innermost activation throws a kind that only the outermost handler accepts */
+static int rec_trace[8]; static int rec_n;
+static void rec(int level, int top) {
+  try {
+    if (level == 0) throw(KeyError, "from the innermost activation"); else rec(level - 1, top);
+  } catch (e in (level == top ? KeyError : TypeError)) { rec_trace[rec_n++ & 7] = 100 + level; }
+}
 int main(int argc, char** argv) {
   int inner = 0, outer = 0, outer2 = 0;
   try {
@@ -13,5 +20,8 @@ int main(int argc, char** argv) {
   printf("inner handler ran %d times, outer catch-all ran %d times, outer filtered ran %d times, depth now %d\n", inner, outer, outer2, (int)len(current(Exception)));
   if (outer != 0 || outer2 != 0) { printf("REPRODUCED: an exception handled by the inner block fired again in the enclosing block\n"); return 1; }
   if (inner != 2 || len(current(Exception)) != 0) { printf("REPRODUCED: handler count / depth wrong\n"); return 1; }
+  { int caught = 0; rec_n = 0;
+    try { rec(3, 3); } catch (e) { caught = 1; }
+    if (caught || rec_n != 1 || rec_trace[0] != 103) { printf("REPRODUCED: an exception thrown in the innermost of four open activations of one try block was not handled exactly once by the outermost activation, the only one whose filter matches (escaped=%d, handlers run=%d)\n", caught, rec_n); return 1; } }
   return 0;
 }
